@@ -105,10 +105,62 @@ select = Fn(F, ["impl OsIpcReceiverSet", "select"], ret="r", extra_params=TS,
     attrs="#[verifier::loop_isolation(false)]\n    #[verifier::allow_complex_invariants]\n    #[verifier::exec_allows_no_decreases_clause]",
     safety_props=["C06", "C18"])
 
+class ValuesFor(Rule):
+    """D32: `for &PollEntry { id: _, fd } in self.pollfds.values() {` -> `for entry__ in it: values_vec(&self.pollfds).iter() { let fd = entry__.fd;`
+    (reference patterns in `for` are outside this Verus; HashMap::values has no usable iterator spec)."""
+    def __init__(self):
+        Rule.__init__(self, "D32", r"for\s+&PollEntry\s*\{\s*id:\s*_,\s*fd\s*\}\s+in\s+self\.pollfds\.values\(\)\s*\{", "", "iteration over the map's values", min_count=1)
+
+    def custom(self, src, m, item, in_skip):
+        from vf.gen import Edit
+        out = []
+        for x in self.regex.finditer(m, item.body_open, item.body_close):
+            out.append(Edit(x.start(), x.end() - 1, "for entry__ in it: vals__.iter() ", "rule", "D32"))
+            out.append(Edit(x.end(), x.end(), "\n            let fd = entry__.fd; /* D32 */", "rule", "D32"))
+        return out
+
+set_drop = Fn(F, ["impl Drop for OsIpcReceiverSet", "drop"], extra_params=TS,
+    requires=[Clause("unix.set.drop/requires.wf", "old(self).wf(*old(s))")],
+    ensures=[Clause("unix.set.drop/ensures.every_member_closed_exactly_once_nothing_else",
+                    "forall|fd: RawFd| !final(s).open.contains(fd)", ["C11", "C06"])],
+    loops={0: Loop(iter_name=None, invariants=[
+        Clause("unix.set.drop/loop0.invariant.remaining_members_still_open",
+               "0 <= it.index() <= vals__@.len()\n"
+               "&& (forall|j: int| it.index() <= j < vals__@.len() ==> s.open.contains((#[trigger] vals__@[j]).fd))\n"
+               "&& (forall|fd: RawFd| #[trigger] s.open.contains(fd) ==> exists|j: int| it.index() <= j < vals__@.len() && (#[trigger] vals__@[j]).fd == fd)\n"
+               "&& (forall|i: int, j: int| 0 <= i < j < vals__@.len() ==> (#[trigger] vals__@[i]).fd != (#[trigger] vals__@[j]).fd)", ["C11"])])},
+    hints=[
+        Hint("body:start",
+             "let vals__ = values_vec(&self.pollfds);\n"
+             "proof {\n"
+             "    broadcast use axiom_token_key_model;\n"
+             "    let ks = choose|ks: Seq<Token>| ks.no_duplicates() && ks.to_set() == self.pollfds@.dom() && ks.len() == vals__@.len()\n"
+             "        && (forall|i: int| 0 <= i < ks.len() ==> (#[trigger] vals__@[i]) == self.pollfds@[ks[i]]);\n"
+             "    assert forall|i: int| 0 <= i < ks.len() implies self.pollfds@.contains_key(#[trigger] ks[i]) by { assert(ks.to_set().contains(ks[i])); }\n"
+             "    assert forall|fd: RawFd| #[trigger] s.open.contains(fd) implies exists|j: int| 0 <= j < vals__@.len() && (#[trigger] vals__@[j]).fd == fd by {\n"
+             "        let t = Token(fd as usize);\n"
+             "        assert(ks.to_set().contains(t));\n"
+             "        let j = choose|j: int| 0 <= j < ks.len() && ks[j] == t;\n"
+             "        assert(vals__@[j].fd == fd);\n"
+             "    }\n"
+             "}", "unix.set.drop/loop0.invariant.remaining_members_still_open"),
+        Hint("loop:0:start", "let ghost idx = it.index() as int;\nproof { assert(vals__@[idx] == *entry__); }"),
+        Hint("loop:0:end",
+             "proof {\n"
+             "    assert forall|fd2: RawFd| #[trigger] s.open.contains(fd2) implies exists|j: int| idx + 1 <= j < vals__@.len() && (#[trigger] vals__@[j]).fd == fd2 by {\n"
+             "        let j = choose|j: int| idx <= j < vals__@.len() && (#[trigger] vals__@[j]).fd == fd2;\n"
+             "        assert(j != idx);\n"
+             "    }\n"
+             "}", "unix.set.drop/loop0.invariant.remaining_members_still_open"),
+    ],
+    rules=[ValuesFor(), AppendArg("B27", r"libc::close\(", S, "close issued by the set's Drop", min_count=1, rename="k_close_member")],
+    attrs="#[verifier::loop_isolation(false)]",
+    safety_props=["C11", "C06"])
+
 UNIT = Unit(
     name="u5_set",
     prelude=["units/common.rs", "units/u5_set.rs"],
-    groups=[("impl OsIpcReceiverSet", [add, select])],
+    groups=[("impl OsIpcReceiverSet", [add, select, set_drop])],
     props=["C02", "C06", "C07", "C11", "C12"],
     prelude_clauses={
         "unix.set.add/requires.id_counter_not_exhausted": [],
@@ -116,6 +168,7 @@ UNIT = Unit(
         "unix.set.recv/requires.descriptor_still_owned": ["C06", "C11", "C18"],
         "unix.set.recv/requires.nonblocking": ["C06", "C10"],
         "unix.set.close/requires.owned_and_open": ["C11", "C06"],
+        "unix.set.drop/requires.closes_only_open_descriptors_of_members": ["C11"],
     },
     kernel_clauses=[
         "epoll (edge-triggered, via mio): a batch holds at most 10 distinct registered tokens, all readable; a member is reported again only after it was drained",
